@@ -2,6 +2,7 @@ package rules
 
 import (
 	"fmt"
+	"strings"
 	"go/token"
 	"go/types"
 	"morlockverif/checker/internal/core"
@@ -21,11 +22,11 @@ func init() {
 			"difference-bound zone domain (internal/absint/zone.go) used to decide comparisons of k1,k2,0 with offsets",
 		},
 		Assume: []string{
-			"no int8 overflow of the mate distance (|k| <= 126)",
+			"the order, involution and increment clauses are decided for mate distances |k| <= 126; at |k| = 127 IncrementMateDistance saturates (so Inc is no longer injective there) - that nothing wraps around at or beyond the ends is decided by R09-range",
 			"Pawns values are not NaN",
 			"scores are built by the package constructors (fields not used by a score type are zero); MateInX(0) is not a constructible score",
 		},
-		NotDecided: []string{"behaviour for hand-built Score literals with stray fields, NaN pawns, or |mate| = 127"},
+		NotDecided: []string{"behaviour for hand-built Score literals with stray fields (R09-range decides that no repo code outside the constructor writes the mate distance), NaN pawns; order preservation under IncrementMateDistance between |k| = 126 and the saturated |k| = 127"},
 	})
 }
 
@@ -100,6 +101,18 @@ type c09env struct {
 	tyNegInf int64
 }
 
+// mateInterior is the range of mate distances the order/involution rules are decided on: one step inside
+// the representable symmetric range [-127, 127], where IncrementMateDistance saturates (R09-range decides
+// that nothing wraps around at or beyond the ends).
+const mateInterior = 126
+
+// mateRange assumes |k| <= mateInterior for a symbolic mate distance.
+func (e *c09env) mateRange(st *absint.State, k absint.Value) {
+	boolT := types.Typ[types.Bool]
+	absint.Assume(st, absint.BinOp(token.GEQ, k, absint.MkInt(-mateInterior, e.mateT), boolT), true)
+	absint.Assume(st, absint.BinOp(token.LEQ, k, absint.MkInt(mateInterior, e.mateT), boolT), true)
+}
+
 func (e *c09env) mk(kind scoreKind, idx int) absint.Value {
 	s := absint.Zero(e.scoreT).(*absint.Struct)
 	switch kind {
@@ -124,6 +137,9 @@ func (e *c09env) seed(r scoreRegion) (*absint.State, absint.Value, absint.Value)
 	zero := absint.MkInt(0, e.mateT)
 	sign := func(k scoreKind, v absint.Value) {
 		m := v.(*absint.Struct).F[1]
+		if k == skMateNeg || k == skMatePos {
+			e.mateRange(st, m)
+		}
 		switch k {
 		case skMateNeg:
 			absint.Assume(st, absint.BinOp(token.LSS, m, zero, types.Typ[types.Bool]), true)
@@ -194,8 +210,134 @@ func runC09(c *Ctx) {
 	r.Rule("R09-incr", "IncrementMateDistance maps Won->Mate(+1), Lost->Mate(-1), Mate(k)->Mate(k away from 0 by 1), Heur unchanged; Less(Inc a, Inc b) == Less(a,b) in every region; MateDistance = |k| / 0 / none", 5+31+5)
 	r.Rule("R09-maxmin", "Max/Min return the argument selected by the spec order in every region", 62)
 	r.Rule("R09-decr", "DecrementMateDistance is the inverse of IncrementMateDistance: Dec(Inc(x)) = x for every score, Inc(Dec(x)) = x for heuristic and mate scores (it translates window bounds into a child's frame, see R03-window)", 10)
+	r.Rule("R09-range", "the mate distance never wraps around: the constructor maps every int8 into the symmetric range [-127,127], nothing else writes the field, and Negate / IncrementMateDistance / DecrementMateDistance / MateDistance map that range into itself on every path (saturating at the ends)", 6)
 	c09Run(c)
 	c.guard("R09-decr", func() { c09Decr(c, "R09-decr") })
+	c.guard("R09-range", func() { c09Range(c, "R09-range") })
+}
+
+// c09Range: int8 arithmetic on the mate distance stays inside the symmetric representable range.
+func c09Range(c *Ctx, rule string) {
+	r := c.R
+	scoreN := c.P.NamedType("pkg/eval", "Score")
+	ctor := c.find("pkg/eval", "", "MateInXScore")
+	if scoreN == nil || ctor == nil {
+		r.Undecided(rule, "anchor:eval.MateInXScore", "", "", "not found")
+		return
+	}
+	stt := scoreN.Underlying().(*types.Struct)
+	e := &c09env{c: c, in: newInterp(c.P), scoreT: scoreN, typeT: stt.Field(0).Type(), mateT: stt.Field(1).Type(), pawnsT: stt.Field(2).Type()}
+	e.tyHeur, _ = constVal(c.P, "pkg/eval", "Heuristic")
+	e.tyMate, _ = constVal(c.P, "pkg/eval", "MateInX")
+	e.tyInf, _ = constVal(c.P, "pkg/eval", "Inf")
+	e.tyNegInf, _ = constVal(c.P, "pkg/eval", "NegInf")
+	boolT := types.Typ[types.Bool]
+	const lim = 127
+	within := func(st *absint.State, v absint.Value, lo, hi int64) (bool, string) {
+		l, h, okL, okH := absint.Bounds(st, v)
+		if !okL || !okH {
+			return false, fmt.Sprintf("%s is not bounded on this path", vstrOf(v))
+		}
+		if l < lo || h > hi {
+			return false, fmt.Sprintf("%s ranges over [%d,%d]", vstrOf(v), l, h)
+		}
+		return true, ""
+	}
+	// mateOf: the mate-distance component of a returned score, if it is (or may be) a mate score
+	checkScore := func(st *absint.State, v absint.Value) string {
+		sv, ok := v.(*absint.Struct)
+		if !ok || len(sv.F) < 2 {
+			return "result is not a score value: " + vstrOf(v)
+		}
+		if t, ok := absint.ConstInt(sv.F[0]); ok && t != e.tyMate {
+			return ""
+		}
+		if ok, why := within(st, sv.F[1], -lim, lim); !ok {
+			return "mate distance of the result leaves [-127,127] (int8 arithmetic wraps around: a mate turns into being mated): " + why + " [" + st.FactsString() + "]"
+		}
+		return ""
+	}
+	// (1) constructor: any int8 in, symmetric range out
+	{
+		st := absint.NewState()
+		k := absint.NewSym(e.mateT, "k")
+		absint.Assume(st, absint.BinOp(token.GEQ, k, absint.MkInt(-128, e.mateT), boolT), true)
+		absint.Assume(st, absint.BinOp(token.LEQ, k, absint.MkInt(127, e.mateT), boolT), true)
+		bad, n := "", 0
+		for _, o := range e.in.Run(ctor, []absint.Value{k}, st) {
+			if o.Panic || o.Undecided() {
+				bad = fmt.Sprintf("path not decided: %v", o.St.Notes)
+				continue
+			}
+			n++
+			if why := checkScore(o.St, o.Ret); why != "" {
+				bad = why
+			}
+		}
+		if n == 0 && bad == "" {
+			bad = "no path"
+		}
+		r.Check(bad == "", rule, "eval.MateInXScore yields a distance in [-127,127] for every int8", c.pos(ctor.Pos()), "", bad)
+	}
+	// (2) nobody else writes the field (composite literals included: they compile to field stores)
+	{
+		var others []string
+		n := 0
+		for _, fs := range allFieldStores(c.P) {
+			if fs.Named == nil || fs.Named.Obj() != scoreN.Obj() || fs.Whole {
+				continue
+			}
+			if fs.Field != stt.Field(1).Name() {
+				continue
+			}
+			n++
+			if fs.Fn == ctor || strings.HasSuffix(c.P.Fset.Position(fs.Pos).Filename, "_test.go") {
+				continue
+			}
+			others = append(others, c.P.FuncName(fs.Fn)+" at "+c.pos(fs.Pos))
+		}
+		r.Check(len(others) == 0 && n > 0, rule, "the mate distance is written only by its constructor", c.pos(ctor.Pos()), "", strings.Join(others, "; "))
+	}
+	// (3) the algebra maps the range into itself
+	for _, t := range [][2]string{{"Score", "Negate"}, {"", "IncrementMateDistance"}, {"", "DecrementMateDistance"}, {"Score", "MateDistance"}} {
+		fn := c.find("pkg/eval", t[0], t[1])
+		cons := "eval." + t[1] + " keeps the distance in range"
+		if fn == nil {
+			r.Undecided(rule, cons, "", "", "function not found")
+			continue
+		}
+		st := absint.NewState()
+		x := e.mk(skMatePos, 1)
+		k := x.(*absint.Struct).F[1]
+		absint.Assume(st, absint.BinOp(token.GEQ, k, absint.MkInt(-lim, e.mateT), boolT), true)
+		absint.Assume(st, absint.BinOp(token.LEQ, k, absint.MkInt(lim, e.mateT), boolT), true)
+		absint.Assume(st, absint.BinOp(token.NEQ, k, absint.MkInt(0, e.mateT), boolT), true)
+		bad, n := "", 0
+		for _, o := range e.in.Run(fn, []absint.Value{x}, st) {
+			if o.Panic || o.Undecided() {
+				bad = fmt.Sprintf("path not decided: %v", o.St.Notes)
+				continue
+			}
+			n++
+			if tp, ok := o.Ret.(*absint.Tuple); ok && len(tp.E) == 2 {
+				// MateDistance: (distance, ok)
+				if okv, known := absint.Decide(o.St, tp.E[1]); known && !okv {
+					continue
+				}
+				if ok, why := within(o.St, tp.E[0], 0, lim); !ok {
+					bad = "distance reported leaves [0,127]: " + why + " [" + o.St.FactsString() + "]"
+				}
+				continue
+			}
+			if why := checkScore(o.St, o.Ret); why != "" {
+				bad = why
+			}
+		}
+		if n == 0 && bad == "" {
+			bad = "no path"
+		}
+		r.Check(bad == "", rule, cons, c.pos(fn.Pos()), "", bad)
+	}
 }
 
 // c09Run decides the score algebra (also re-decided by C03, whose equality with minimax rests on it).
@@ -480,6 +622,9 @@ func c09Decr(c *Ctx, rule string) {
 		for _, sd := range seeds {
 			st := absint.NewState()
 			x := e.mk(sd.kind, 1)
+			if sd.kind == skMateNeg || sd.kind == skMatePos {
+				e.mateRange(st, x.(*absint.Struct).F[1])
+			}
 			if sd.fact != nil {
 				sd.fact(st, x.(*absint.Struct).F[1])
 			}
